@@ -70,6 +70,10 @@ type SeededEngine struct {
 	// BeforeEvent, when set, runs on the engine goroutine before each event
 	// (outside the pause semaphore). The goroutine controller parks here.
 	BeforeEvent func()
+	// OnPauseContinue, when set, is called on entry to Pause ("pause") and Continue ("continue"), on the
+	// caller's goroutine and outside any engine event: a controlled scheduler makes them scheduling points
+	// (every synchronisation with the engine is a point where another thread may run).
+	OnPauseContinue func(which string)
 	// AfterEvent, when set, runs after each event with the engine's global
 	// event ordinal (inside the semaphore).
 	AfterEvent func(seq uint64)
@@ -123,6 +127,9 @@ func (e *SeededEngine) Schedule(evt sim.Event) {
 // Pause implements sim.Engine. The caller blocks (durably, on a channel) until
 // the event in progress has finished.
 func (e *SeededEngine) Pause() {
+	if e.OnPauseContinue != nil {
+		e.OnPauseContinue("pause")
+	}
 	e.pauseMu.Lock()
 	if e.paused {
 		e.pauseMu.Unlock()
@@ -138,6 +145,9 @@ func (e *SeededEngine) Pause() {
 
 // Continue implements sim.Engine.
 func (e *SeededEngine) Continue() {
+	if e.OnPauseContinue != nil {
+		e.OnPauseContinue("continue")
+	}
 	e.pauseMu.Lock()
 	if !e.paused {
 		e.pauseMu.Unlock()
